@@ -60,8 +60,9 @@ try:
     out["checks"] = results
     dst = os.path.join("/verif/seeded", name)
     os.makedirs(dst, exist_ok=True)
-    shutil.copy(os.path.join(seed_dir, "patch.diff"), dst)
-    shutil.copy(os.path.join(seed_dir, "demo_test.go"), dst)
+    if os.path.realpath(seed_dir) != os.path.realpath(dst):
+        shutil.copy(os.path.join(seed_dir, "patch.diff"), dst)
+        shutil.copy(os.path.join(seed_dir, "demo_test.go"), dst)
     full = {"property": meta.get("property"), "title": meta.get("title"), "mechanism": meta.get("mechanism"), "needs": meta.get("needs"),
             "files_changed": meta.get("files_changed"), "demo_run": demo_run, "confirmation": out}
     json.dump(full, open(os.path.join(dst, "meta.json"), "w"), indent=1)
